@@ -25,13 +25,16 @@ pub struct FileCase {
     pub sync: bool,
     /// append this many explicit zero bytes after the last segment (allocated zeros)
     pub zero_tail: u16,
+    /// every n-th data segment lives at the start of a preallocated (fallocate) range twice its size
+    #[serde(default)]
+    pub prealloc_every: u8,
 }
 
 pub fn file_strategy() -> BoxedStrategy<FileCase> {
     let seg = (prop_oneof![3 => 1u32..300, 3 => 300u32..5000, 2 => 4096u32..65536, 1 => Just(4096u32), 1 => Just(8192u32)], prop_oneof![4 => 1u8..4, 2 => 4u8..40, 1 => 40u8..255], prop_oneof![2 => Just(0u16), 1 => 1u16..4096]);
     let n = prop_oneof![1 => 0usize..1, 2 => 1usize..2, 5 => 2usize..33, 3 => 33usize..101];
-    (n.prop_flat_map(move |k| prop::collection::vec(seg.clone(), k..=k)), prop_oneof![2 => Just(0u8), 1 => 1u8..30], any::<bool>(), any::<bool>(), prop_oneof![3 => Just(0u16), 1 => 1u16..9000])
-        .prop_map(|(segs, lead_hole_blocks, trailing_hole, sync, zero_tail)| FileCase { segs, lead_hole_blocks, trailing_hole, sync, zero_tail })
+    (n.prop_flat_map(move |k| prop::collection::vec(seg.clone(), k..=k)), prop_oneof![2 => Just(0u8), 1 => 1u8..30], any::<bool>(), any::<bool>(), prop_oneof![3 => Just(0u16), 1 => 1u16..9000], prop_oneof![3 => Just(0u8), 1 => Just(1u8), 1 => 2u8..5])
+        .prop_map(|(segs, lead_hole_blocks, trailing_hole, sync, zero_tail, prealloc_every)| FileCase { segs, lead_hole_blocks, trailing_hole, sync, zero_tail, prealloc_every })
         .boxed()
 }
 
@@ -42,7 +45,11 @@ pub fn file_content(c: &FileCase) -> Content {
     }
     let n = c.segs.len();
     for (i, (dl, hb, skew)) in c.segs.iter().enumerate() {
-        segs.push(Seg::Data(*dl as u64, (i % 200) as u8));
+        if c.prealloc_every > 0 && i % c.prealloc_every as usize == 0 {
+            segs.push(Seg::PreData(*dl as u64 * 2 + 4096, *dl as u64, (i % 200) as u8));
+        } else {
+            segs.push(Seg::Data(*dl as u64, (i % 200) as u8));
+        }
         if i + 1 < n || c.trailing_hole {
             segs.push(Seg::Hole(*hb as u64 * 4096 + *skew as u64));
         }
@@ -122,7 +129,7 @@ pub fn judge_file(c: &FileCase, rec: &mut Rec) -> Verdict {
         Ok(f) => f,
         Err(e) => return Verdict::Inconclusive(format!("read: {e}")),
     };
-    let ndata = content.segs.iter().filter(|s| matches!(s, Seg::Data(..))).count();
+    let ndata = content.segs.iter().filter(|s| matches!(s, Seg::Data(..) | Seg::PreData(..))).count();
     let map = v.get("map_extents").and_then(pairs);
     let merged = v.get("merged").and_then(pairs);
     let segs = v.get("segments").and_then(pairs).unwrap_or_default();
@@ -135,7 +142,7 @@ pub fn judge_file(c: &FileCase, rec: &mut Rec) -> Verdict {
         if c.trailing_hole { "tail-hole" } else if c.zero_tail > 0 { "tail-zeros" } else { "tail-data" },
         if c.lead_hole_blocks > 0 { "lead-hole" } else { "data-at-0" },
         if c.sync { "synced" } else { "delalloc" }
-    );
+    ) + if c.prealloc_every > 0 { "|prealloc" } else { "" };
     let new = rec.class(key);
     if next >= 2 || ndata >= 2 {
         rec.nontrivial(case_hash(c));
@@ -390,6 +397,6 @@ impl Check for C19 {
         }
     }
     fn required_classes(&self, _tier: Tier) -> Vec<String> {
-        ["extents=>32", "extents=2-32", "extents=1|", "unaligned", "tail-data", "tail-hole", "data-at-0", "synced", "delalloc", "list|n=9+", "touching=2", "gap1=2", "exhaustive|"].iter().map(|s| s.to_string()).collect()
+        ["extents=>32", "extents=2-32", "extents=1|", "unaligned", "tail-data", "tail-hole", "data-at-0", "synced", "delalloc", "delalloc|prealloc", "list|n=9+", "touching=2", "gap1=2", "exhaustive|"].iter().map(|s| s.to_string()).collect()
     }
 }
